@@ -12,6 +12,7 @@
 import ast
 
 from .common import *
+from . import shared
 from ..convsum import convert_summary
 from ..gram import Grammar, alphabet
 from ..interp import Interp
@@ -159,6 +160,7 @@ def run(chk, ctx):
                 base_entry.add_ineq(Lin.sym(p) - (ONE if p == "snapshots_in_ram" and family else Lin.const(0)))
                 base_entry.enum_meet(p, "notin", ["None"])
         sparams = [p for p in params if p in ("storage", "binomial_storage")]
+        attr_of = shared.param_attrs(repo, cname)
         variants = [(base_entry, {})]
         for p in sparams:
             variants = [(e, dict(c, **{p: v})) for e, c in variants for v in ("StorageType.RAM", "StorageType.DISK")]
@@ -212,7 +214,7 @@ def run(chk, ctx):
                 online = all(e.enum_is("self._max_n", "None") == "yes" for e in entries)
                 for r in runs:
                     # only the run analysed under this storage choice
-                    if any(r.config.get("self._" + p, v) != v for p, v in pcfg.items()):
+                    if any(r.config.get(attr_of.get(p, "self._" + p), v) != v for p, v in pcfg.items()):
                         continue
                     for rec in r.interp.yields:
                         vals = []
